@@ -143,7 +143,7 @@ mutual
         rcases h with (h | h) | h
         · have := transfList_err n bound ds h; errs
         · have := transfOptList_err n bound kd h; errs
-        · have := transf_err n (compMark :: (Arguments.paramNames (.mk po as va ko kd kw ds) ++ bound)) body h; errs
+        · have := transf_err n (lamMark :: (Arguments.paramNames (.mk po as va ko kd kw ds) ++ walrusNames body ++ bound)) body h; errs
     | bound, .listComp elt gens, h => by
         simp only [hasUnsup, Bool.or_eq_true] at h
         simp only [transf]
